@@ -36,7 +36,7 @@ impl TraitHandler for HashUnionHandler {
 
         let (impl_generics, ty_generics, where_clause) = ast.generics.split_for_impl();
 
-        let hasher_ident = super::hasher_ident(&ast.generics);
+        let hasher_ident = super::hasher_ident(ast);
 
         token_stream.extend(quote! {
             impl #impl_generics ::core::hash::Hash for #ident #ty_generics #where_clause {
